@@ -4,6 +4,8 @@ import JSight.ByteLemmas
 import JSight.RenderLine
 import JSight.ValidatePosBytes
 import JSight.ValidatePosShape
+import JSight.SchemaErrExamples
+import JSight.SchemaViable
 /-!
 # C17 — Errors point at the offending byte and render correctly
 
@@ -187,4 +189,111 @@ example : (toJA classify exD).Valid := by
 
 end validation
 
+/-! ## Schema scanner: a parsing error points at the first byte that cannot continue the text
+
+Model `SchemaScan.scanAll` (the JSight SCHEMA scanner as `Next()` drains it; tied to the real scanner's `ERR code idx` by
+`schema-diff` / `schema-tprod`, and to the statements below by `c17-schema-viable`). `SchemaScan.Err.idx` is the offset an
+error carries, `Err.isEOF` singles out "unexpected end of file" (303); the other structured errors are 301 / 302 / 304. -/
+section schema
+
+/-- **C17 (1), schema scanner: the error is determined by the prefix up to the offending byte and a bounded look-ahead
+window.** If the scanner rejects `bs` with error `e` at offset `i = e.idx`, then `i` is an offset of the text; and if `e` is
+not "unexpected end of file", every byte string that has the same bytes and the same end of input at the offsets
+`0 … i + 2` (the scanner looks at most two bytes ahead: one for `*/` and `##`, two for the closing `###`) is rejected
+with exactly the same error (same code, same offset, same message): nothing behind the window can repair the text. -/
+theorem C17_schema_error_is_prefix_determined (bs : List UInt8) (e : SchemaScan.Err)
+    (h : SchemaScan.scanAll bs = .error e) :
+    e.idx < max 1 bs.length ∧
+    (e.isEOF = false →
+      e.idx < bs.length ∧
+      ∀ bs' : List UInt8, (∀ k, k < e.idx + 3 → bs'[k]? = bs[k]?) → SchemaScan.scanAll bs' = .error e) :=
+  ⟨SchemaScan.scanAll_error_idx_lt bs e h, fun he => SchemaScan.scanAll_error_prefix bs e h he⟩
+
+/-- the same in the form "cut the text behind the window and continue it by anything" (window `w = 2`) -/
+theorem C17_schema_error_window (bs : List UInt8) (e : SchemaScan.Err) (h : SchemaScan.scanAll bs = .error e)
+    (he : e.isEOF = false) (hw : e.idx + 1 + 2 ≤ bs.length) (ext : List UInt8) :
+    SchemaScan.scanAll (bs.take (e.idx + 1 + 2) ++ ext) = .error e :=
+  SchemaScan.scanAll_error_window bs e h he hw ext
+
+/-- The EXACT window (not proved; checked operationally by `c17-schema-viable`): `w = 1` for the error "after first #"
+(`##` must be followed by a third `#`), `w = 0` for every other error — the bytes up to the offending one decide, plus,
+for `##`, the fact that the next byte is not `#`. -/
+def C17_schema_error_exact_window_full : Prop :=
+  ∀ (bs : List UInt8) (e : SchemaScan.Err), SchemaScan.scanAll bs = .error e → e.isEOF = false →
+    ∀ bs' : List UInt8, (∀ k, k ≤ e.idx → bs'[k]? = bs[k]?) → (e.window = 1 → bs'[e.idx + 1]? ≠ some 35) →
+      SchemaScan.scanAll bs' = .error e
+
+/-- non-vacuity: `x` (offset 0) and `##xy` (offset 1, the error that needs the look-ahead byte) -/
+example : SchemaScan.scanAll [120] = .error (.invalidChar 0 "looking for beginning of value") := SchemaScan.ErrEx.ex_x
+example : SchemaScan.scanAll [35, 35, 120, 121] = .error (.invalidChar 1 "after first #") := SchemaScan.ErrEx.ex_hash
+example (ext : List UInt8) : SchemaScan.scanAll ([35, 35, 120, 121] ++ ext) = .error (.invalidChar 1 "after first #") :=
+  C17_schema_error_window [35, 35, 120, 121] _ SchemaScan.ErrEx.ex_hash rfl (by decide) ext
+
+/-- **C17 (2), full statement (NOT a theorem).** The prefix before the offending byte can be completed to an accepted text.
+It is false as it stands: after a user comment inside the object of an INLINE annotation the scanner forgets the
+annotation (`[1 //{#c\n}` followed by any byte is rejected at that byte, although no byte could be accepted from the
+`#` on; real library: 301 at offset 10 for `[1 //{#c\\n}]`, 303 for the bare prefix, while at root level `1 //{#c\\n}` IS
+accepted) — known-finding class `K-C17-comment-in-inline-annotation` of `c17-schema-viable`. Neither a `_partial` theorem
+(class excluded) nor the Lean refutation on the witness is proved yet: the witness is replayed on the model (driver
+`sviable`) and on the real scanner. Outside that class the
+completion `SchemaScan.completion` (close the open token, then the lexeme stack from the top, following the return
+stack through annotations and comments) is accepted by the model and by the real scanner on every generated case. -/
+def C17_schema_error_prefix_viable_full : Prop :=
+  ∀ (bs : List UInt8) (e : SchemaScan.Err), SchemaScan.scanAll bs = .error e → e.isEOF = false →
+    ∃ ext : List UInt8, ∃ evs, SchemaScan.scanAll (bs.take e.idx ++ ext) = .ok evs
+
+/-- **C17 (3), the end-of-file error is reported at the last byte** — for every input on which the scanner reports it. -/
+theorem C17_schema_eof_error_position (bs : List UInt8) (e : SchemaScan.Err) (h : SchemaScan.scanAll bs = .error e)
+    (he : e.isEOF = true) : e = .unexpectedEOF (bs.length - 1) :=
+  SchemaScan.scanAll_eof_idx bs e h he
+
+/-- **C17 (3), input ends early at a token boundary** (ordinary mode; `C14_schema_len_error` is the length-mode twin):
+the input is the text of a token list accepted from the initial state that leaves an object, an array, a key, a member
+value or an array item open: "unexpected end of file" (303) at the last byte. -/
+theorem C17_schema_eof_error_tokens (toks : List SchemaScan.Len.Tok) (hw : ∀ t ∈ toks, t.WF) (c' : SchemaScan.Len.TC)
+    (evs : List SchemaScan.Ev) (h : SchemaScan.Len.trun SchemaScan.Len.TC.init toks = some (c', evs))
+    (hopen : SchemaScan.Len.eofErrK c'.K = true) (bs : List UInt8)
+    (hbs : bs.map SchemaScan.classify = SchemaScan.Len.renderToks toks) :
+    SchemaScan.scanAll bs = .error (.unexpectedEOF (bs.length - 1)) :=
+  SchemaScan.scanAll_eof_tokens toks hw c' evs h hopen bs hbs
+
+/-- … and inside a string (a cut inside a token): where a value may start, `"` and string characters up to the end -/
+theorem C17_schema_eof_error_string (toks : List SchemaScan.Len.Tok) (hw : ∀ t ∈ toks, t.WF) (c' : SchemaScan.Len.TC)
+    (evs : List SchemaScan.Ev) (h : SchemaScan.Len.trun SchemaScan.Len.TC.init toks = some (c', evs))
+    (ctx : SchemaScan.VCtx) (hctx : SchemaScan.Len.vctxOf c'.st = some ctx) (body : List SchemaScan.Cls)
+    (hb : SchemaScan.StrBody body) (bs : List UInt8)
+    (hbs : bs.map SchemaScan.classify = SchemaScan.Len.renderToks toks ++ (.quote :: body)) :
+    SchemaScan.scanAll bs = .error (.unexpectedEOF (bs.length - 1)) :=
+  SchemaScan.scanAll_eof_string toks hw c' evs h ctx hctx body hb bs hbs
+
+/-- **C17 (3), any cut of an accepted text** (cuts inside tokens, annotations, comments included): a prefix of an accepted
+text is accepted, or rejected with "unexpected end of file" at its last byte, or rejected with an invalid-character
+error whose look-ahead window reaches the end of the prefix (one of its last two bytes; with the exact window: the last
+byte, and only for a prefix ending in `##`). -/
+theorem C17_schema_prefix_of_accepted_partial (t : List UInt8) (evs : List SchemaScan.Ev)
+    (ht : SchemaScan.scanAll t = .ok evs) (n : Nat) (e : SchemaScan.Err)
+    (h : SchemaScan.scanAll (t.take n) = .error e) :
+    e = .unexpectedEOF ((t.take n).length - 1) ∨
+    (e.isEOF = false ∧ (t.take n).length < e.idx + 3 ∧ e.idx < (t.take n).length) :=
+  SchemaScan.scanAll_prefix_of_accepted t evs ht n e h
+
+/-- full statement of (3) for any cut (follows from `C17_schema_error_exact_window_full`; not proved): the position is
+the last byte -/
+def C17_schema_prefix_of_accepted_full : Prop :=
+  ∀ (t : List UInt8) (evs : List SchemaScan.Ev), SchemaScan.scanAll t = .ok evs → ∀ (n : Nat) (e : SchemaScan.Err),
+    SchemaScan.scanAll (t.take n) = .error e → e.idx = (t.take n).length - 1
+
+/-- non-vacuity: `[1, {"a":` and `[1, {"a":"x\n` -/
+example := SchemaScan.ErrEx.ex_eof
+example := SchemaScan.ErrEx.ex_eof_str
+
+end schema
+
 end Props.C17
+
+#print axioms Props.C17.C17_schema_error_is_prefix_determined
+#print axioms Props.C17.C17_schema_error_window
+#print axioms Props.C17.C17_schema_eof_error_position
+#print axioms Props.C17.C17_schema_eof_error_tokens
+#print axioms Props.C17.C17_schema_eof_error_string
+#print axioms Props.C17.C17_schema_prefix_of_accepted_partial
